@@ -672,6 +672,8 @@ def _chunks(lst, size):
 
 
 def run(ctx: Ctx):
+    from vf.prove import prove
+    prove(ctx, ["specs.misc"], "C18")  # deductive part (specs/misc.py)
     from vf.pool import pmap
     use_repo()
     rng = random.Random(ctx.seed)
